@@ -1,5 +1,8 @@
 import PymoodeProofs.C01
+import PymoodeProofs.C03
+import PymoodeProofs.C04
 import PymoodeProofs.C09
 import PymoodeProofs.C10
 import PymoodeProofs.C11
 import PymoodeProofs.C12
+import PymoodeProofs.C16
